@@ -3,11 +3,19 @@
    Proved for the tokenizer model: between tokens (state Main) a run of Unicode whitespace
    characters leaves the tokenizer untouched whatever their positions; inside a comment every
    character up to the newline is ignored and the newline returns to Main.
-   NOT proved: C16_invariance (two sources with the same token contents give the same result up
-   to positions); decided per pair by the check (source vs random re-layout through the crate,
-   results compared modulo the hash line / position map). *)
+   AND, through the lexical specification (Lex/Spec.v; tokenize src = lex 0 src for every string):
+     - a whitespace character in front of any text produces no token and only moves what follows
+       (C16_whitespace_only_shifts); so does a whole `//` comment with its line break, and a
+       comment that runs to the end of the file produces nothing at all (the two C16_comment theorems);
+     - the same text further to the right gives the same tokens and the same lexical error, with
+       every byte position moved by exactly that distance (C16_positions_only_shift).
+   Hence a re-layout (gaps of whitespace and comments changed between lexemes) changes the token
+   list only in its positions, and a lexical error remains the same error, shifted.
+   NOT proved: that the stages after the tokenizer use positions only inside error values (the
+   emitted text does not depend on them); decided per pair by the check (source vs random
+   re-layout through the crate, results compared modulo the hash line / position map). *)
 From Coq Require Import List NArith.
-From Kiki Require Import Base.Ord Base.Chars Data Lex.Model Lex.Proofs.
+From Kiki Require Import Base.Ord Base.Chars Data Lex.Model Lex.Proofs Lex.Spec.
 
 Theorem C16_whitespace_run_is_skipped : forall src t (l : list (N * char)) rest,
   tz_state t = LMain -> Forall (fun p => is_whitespace (snd p) = true) l ->
@@ -19,5 +27,27 @@ Theorem C16_comment_is_skipped : forall src t (l : list (N * char)) j rest,
   tokenize_loop src t (l ++ (j, 10%N) :: rest) = tokenize_loop src (set_state t LMain) rest.
 Proof. exact comment_run_is_skipped. Qed.
 
+Theorem C16_tokenizer_is_lex : forall src, tokenize src = lex 0 src.
+Proof. exact tokenize_is_lex. Qed.
+
+Theorem C16_whitespace_only_shifts : forall p c s, is_whitespace c = true -> lex p (c :: s) = lex (p + len_utf8 c) s.
+Proof. exact lex_skips_whitespace. Qed.
+
+Theorem C16_comment_only_shifts : forall p body s, forallb (fun x => negb (x =? 10)%N) body = true ->
+  lex p (ch "/" :: ch "/" :: body ++ 10%N :: s) = lex (p + 2 + blen body + 1) s.
+Proof. exact lex_skips_comment. Qed.
+
+Theorem C16_comment_at_end_of_file : forall p body, forallb (fun x => negb (x =? 10)%N) body = true ->
+  lex p (ch "/" :: ch "/" :: body) = Ok [].
+Proof. exact lex_comment_at_eof. Qed.
+
+Theorem C16_positions_only_shift : forall p s, lex p s = rshift (map (shift_tok p)) p (lex 0 s).
+Proof. exact lex_shift. Qed.
+
 Print Assumptions C16_whitespace_run_is_skipped.
+Print Assumptions C16_tokenizer_is_lex.
+Print Assumptions C16_whitespace_only_shifts.
+Print Assumptions C16_comment_only_shifts.
+Print Assumptions C16_comment_at_end_of_file.
+Print Assumptions C16_positions_only_shift.
 Print Assumptions C16_comment_is_skipped.
